@@ -70,7 +70,7 @@ def how_label(sc, rec):
     f = sc.get("fault")
     if f:
         if f["kind"] == "cb":
-            return f"callback-raised:{f['cb']}:{f['exc']}"
+            return f"callback-raised:{f['cb']}:{f['exc']}" + (":from-its-answer's-truth-value" if f.get("via") else "")
         if f["kind"] == "throw":
             return f"thrown:{f['exc']}"
         if f["kind"] == "hook":
@@ -198,6 +198,11 @@ def enumerate_faults(ctx, base, entry, rng, tier, stats):
         for i in range(n):
             for k in kinds:
                 plans.append({"kind": "cb", "cb": cb, "at": i, "exc": k})
+        if cb == "abort_if":
+            # the predicate returns normally, but its answer raises when the library asks for its truth value
+            for i in range(n):
+                for k in kinds[:2]:
+                    plans.append({"kind": "cb", "cb": cb, "at": i, "exc": k, "via": "bool"})
     # observability hooks are callback invocations too: a KeyboardInterrupt / SystemExit / CancelledError arriving while the
     # library is inside on_metric / on_log / before_sleep (ordinary Exceptions there are C15's business)
     for hk in ("metric", "log", "before_sleep"):
